@@ -53,7 +53,7 @@ PROPS = {
     },
     "C20": {
         "level": "exploration",
-        "level_text": "Generated mixed-verdict histories with a recording metric factory installed before the first witness exists; after every request the delta of every witness_update_* counter and label is compared with what the observed verdict allows (and nothing else may move). Part 'race' runs every interleaving of every two-request scenario under the C05 scheduler on both stores and compares the movement of the counters during the concurrent phase with the outcomes.",
+        "level_text": "Generated mixed-verdict histories with a recording metric factory installed before the first witness exists; after every request the delta of every witness_update_* counter and label is compared with what the observed verdict allows (and nothing else may move); every increment is also forwarded to the repository's own Prometheus binding (monitoring/prometheus, prefix omniwitness_ as cmd/omniwitness configures it) and the same per-step delta oracle is applied to what the default Prometheus registry gathers, i.e. to what an operator scrapes. Part 'race' runs every interleaving of every two-request scenario under the C05 scheduler on both stores and compares the movement of the counters during the concurrent phase with the outcomes.",
         "level_note": "Verdict taken from the observed Update result (its agreement with the protocol rules is C09's business); counters are process-wide so each shard is one process and runs its cases sequentially.",
         "technique": "property-based testing: generated histories, per-step counter-delta oracle (rapid)",
         "assumptions": HIST_ASSUME,
